@@ -556,6 +556,11 @@ impl OutstationSession {
                         Ok(NextIdleAction::SleepUntilEvent)
                     }
                     Some(UnsolicitedResult::Timeout) | Some(UnsolicitedResult::ReturnToIdle) => {
+                        // The series ended without a confirmation: return the events it carried
+                        // to the pool. Otherwise they are not offered to a poll that arrives before
+                        // the next unsolicited attempt, and the confirmation of that poll's response
+                        // releases them although no confirmed response carried them.
+                        database.reset();
                         let retry_at = self.new_unsolicited_retry_deadline();
                         self.state.unsolicited = UnsolicitedState::Ready(Some(retry_at));
                         Ok(NextIdleAction::SleepUnit(retry_at))
